@@ -744,7 +744,7 @@ func reps(col *ev.Collector) (int, int, int) {
 	if col.Thorough() {
 		return 16, 6, 2
 	}
-	return 12, 3, 2
+	return 8, 3, 2
 }
 
 func setScratch(t *testing.T) {
@@ -759,7 +759,7 @@ func drawCommon(t *rapid.T, cs *Case, allowSelf bool) {
 	cs.Prune = rapid.IntRange(0, 3).Draw(t, "prune") == 0
 	cs.GMW = rapid.IntRange(0, 3).Draw(t, "gmw") == 0
 	cs.MultThr = rapid.SampledFrom([]int{0, 0, 8, 21}).Draw(t, "multthr")
-	nh := rapid.SampledFrom([]int{0, 1, 1, 2, 3, 5}).Draw(t, "nhist")
+	nh := rapid.SampledFrom([]int{0, 1, 1, 2, 3}).Draw(t, "nhist")
 	lo := 0
 	if allowSelf {
 		lo = -1
